@@ -358,6 +358,55 @@ def op_write(st, o):
     return "written"
 
 
+@op("write_rejected")
+def op_write_rejected(st, o):
+    """A write the format must refuse (field is not 3-d, mixed mesh units, unknown
+    representation). It is not a completed write: the path keeps its previous content,
+    side-car included (checked by the following reads and the recovery phase)."""
+    obj, fsh = st.f[o["src"]]
+    rel, fmt, why = o["path"], o["fmt"], o["why"]
+    pm = st.paths.get(rel)
+    if pm is None or pm.foreign is not None:
+        return "skipped"
+    rep = o.get("rep")
+    if why == "ndim" and fsh.mesh.region.ndim == 3:
+        return "skipped"
+    if why == "units" and (fmt != "ovf" or fsh.mesh.region.ndim != 3 or len(set(fsh.mesh.region.units)) == 1):
+        return "skipped"
+    if why == "rep":
+        rep = "bin5"
+        if not can_write(fsh, fmt, {}):
+            return "skipped"
+    res = lib_write(st, obj, rel, fmt, rep, o.get("opts") or {})
+    st.stats.fault("rejected_write")
+    if not res.raised:
+        # not a clause of C09/C16; the path no longer has a modelled content
+        del st.paths[rel]
+        st.fs.delete(rel)
+        st.fs.delete(_sidecar(rel))
+        return "accepted-unmodelled"
+    st.stats.probe("rejected_write_over_existing" + ("_with_subregions" if pm.subs else ""))
+    return "write-rejected"
+
+
+@op("plant_sidecar")
+def op_plant_sidecar(st, o):
+    """A subregion side-car from another era or tool lies next to an HDF5 file (the
+    legacy layout kept subregions there). HDF5 files carry their own subregions: the
+    read-back is unaffected."""
+    obj, fsh = st.f[o["src"]]
+    rel = o["path"]
+    pm = st.paths.get(rel)
+    if pm is None or pm.fmt != "hdf5" or pm.foreign is not None or not fsh.mesh.subs:
+        return "skipped"
+    res = sut(obj.mesh.save_subregions, st.fs.path(rel))
+    if res.raised:
+        raise HarnessError(f"save_subregions failed: {res.e!r}")
+    st.stats.fault("stale_sidecar")
+    st.stats.probe("stale_sidecar_next_to_hdf5")
+    return "planted"
+
+
 def _expected_subs(old, fsh, opts):
     if opts.get("save_subregions", True) is False:
         return []  # generator guarantees no side-car is on disk for this path
